@@ -12,7 +12,8 @@ RULE = ("rt: cap objects of every kind from random fields (k/N/size up to 2^80) 
         "character, wrong field lengths, leading zeros or '+' in numbers, case changes, ro./imm. prefixes, MDMF extension fields); raw: printable strings around "
         "the URI: grammar. Oracle: result is UnknownURI echoing the input, or a known kind whose to_string() equals the input after removing a legal prefix "
         "(and, for MDMF kinds only, ':'-introduced extension fields) and whose class matches the URI:<kind>: prefix. Non-trivial = mutated string that is still "
-        "accepted as a known kind, or any rt case with a field >= 2^32; distinct by input string.")
+        "accepted as a known kind, or any rt case with a field >= 2^32; distinct by input string."
+        ' Mutations include numeric fields of 4299/4300/4301/9000 digits; only AssertionError/TypeError escaping from_string count as rejection (as in is_uri()), any other exception is a parser crash.')
 LEVEL_TEXT = "Search over generated and mutated capability strings with a canonical-form oracle; round trip exactness for every kind."
 ASSUMPTIONS = ["an AssertionError or TypeError escaping from_string() for a bytes input counts as rejection (is_uri() treats them that way); any other exception is a parser crash"]
 REQUIRED_CLASSES = ["huge-number", "rt", "mut-accepted", "mut-unknown", "mdmf-extension-accepted", "prefix-ro", "prefix-imm"]
